@@ -432,6 +432,50 @@ Proof.
   unfold next_level, ntl_res. cbn [length rev]. reflexivity.
 Qed.
 
+(* ---------- nextPacketID ---------- *)
+
+Local Open Scope Z_scope.
+Lemma land_65535 x : 0 <= x -> Z.land x 65535 = x mod 65536.
+Proof. intros _. change 65535 with (Z.ones 16). rewrite Z.land_ones by lia. reflexivity. Qed.
+
+Lemma nextPacketID_equiv : T_nextPacketID.
+Proof.
+  unfold T_nextPacketID. intros c Hc.
+  unfold go_message_nextPacketID, next_pid.
+  assert (H64 : (2 ^ 64)%N = 18446744073709551616%N) by reflexivity.
+  set (z := Z.of_N c).
+  assert (Hz : 0 <= z < 18446744073709551616) by (unfold z; lia).
+  cbn [go_loop].
+  rewrite land_65535 by (apply Z.mod_pos_bound; lia).
+  rewrite Z.mod_mod by lia.
+  destruct ((c + 1) mod 65536 =? 0)%N eqn:E0.
+  - (* the low word wraps: a second round *)
+    apply N.eqb_eq in E0.
+    assert (Hz0 : ((z + 1) mod 18446744073709551616) mod 65536 = 0).
+    { unfold z. destruct (Z.eq_dec (Z.of_N c + 1) 18446744073709551616) as [e|ne].
+      - rewrite e. reflexivity.
+      - rewrite (Z.mod_small (Z.of_N c + 1) 18446744073709551616) by lia. lia. }
+    rewrite Hz0. cbn [Z.eqb negb].
+    rewrite land_65535 by (apply Z.mod_pos_bound; lia).
+    rewrite Z.mod_mod by lia.
+    assert (Hz1 : (((z + 1) mod 18446744073709551616 + 1) mod 18446744073709551616) mod 65536 = 1).
+    { unfold z. destruct (Z.eq_dec (Z.of_N c + 1) 18446744073709551616) as [e|ne].
+      - rewrite e. reflexivity.
+      - rewrite (Z.mod_small (Z.of_N c + 1) 18446744073709551616) by lia.
+        rewrite (Z.mod_small (Z.of_N c + 1 + 1) 18446744073709551616) by lia. lia. }
+    rewrite Hz1. cbn [Z.eqb negb fst snd].
+    f_equal. f_equal.
+    + lia.
+    + unfold z. rewrite H64. destruct (Z.eq_dec (Z.of_N c + 1) 18446744073709551616) as [e|ne].
+      * rewrite e. assert (c = 18446744073709551615)%N by lia. subst c. reflexivity.
+      * rewrite (Z.mod_small (Z.of_N c + 1) 18446744073709551616) by lia. lia.
+  - apply N.eqb_neq in E0.
+    assert (Hlt : Z.of_N c + 1 < 18446744073709551616) by (unfold z in *; lia).
+    rewrite (Z.mod_small (z + 1) 18446744073709551616) by lia.
+    destruct ((z + 1) mod 65536 =? 0) eqn:E1; [unfold z in *; lia|].
+    cbn [negb fst snd]. f_equal. f_equal; unfold z; rewrite ?H64; lia.
+Qed.
+
 Print Assumptions nextTopicLevel_equiv.
 Print Assumptions validTopic_equiv.
 Print Assumptions validQos_equiv.
@@ -444,3 +488,4 @@ Print Assumptions index_equiv.
 Print Assumptions full_empty_equiv.
 Print Assumptions powerOfTwo_equiv.
 Print Assumptions roundUp_equiv.
+Print Assumptions nextPacketID_equiv.
